@@ -374,6 +374,7 @@ func checkC12(c *Ctx) {
 	ruleF3(c)
 	ruleStackNode(c)
 	ruleX9(c)
+	ruleX4b(c)
 }
 
 func checkC14(c *Ctx) {
@@ -525,9 +526,20 @@ var extraClauses = map[string][]string{
 	"C05": {"D10/D11/D5p: the tail pointer is reset when the last entry is unlinked, an append links from the old tail before the tail moves, popFront is only reached on a non-empty queue"},
 	"C06": {"X10: every *Front method works on root/root.next/dqNext and every *Back method on root.prev/dqPrev"},
 	"C08": {"K6/K7: Subscribe/Unsubscribe and the event loop agree on the channel roles; sendMsg is a two-arm select without default"},
+	"C10": {"X4/X4b: the collector behind Wait drops nothing but nil"},
 	"C14": {"V3: Done is Add(-1), Inc is Add(1)"},
 	"C16": {"D3k/X10: Stack.Pop moves head, length and ownership together; List's *Front/*Back methods use the end their name says"},
 	"C18": {"D6d/D6e: Equal compares sizes first; AddCheck inserts only after the presence test; DeleteCheck un-indexes on every path"},
 	"C19": {"H2/H1b: Equals compares every field; a bucket delta is mirrored in totalCount"},
 	"C20": {"D10/D11/D5p on the Queue's links (the iterator's `next != q.back` test relies on the tail reset)"},
+}
+
+// extraRules: rules attached to a property after its main check function (used where the
+// check function lives in another file).
+var extraRules = map[string]func(*Ctx){
+	"C10": func(c *Ctx) {
+		// "errors complete": the service's collector keeps every non-nil error it is given
+		ruleX4b(c)
+		ruleX4(c)
+	},
 }
